@@ -230,6 +230,8 @@ func init() {
 			switch t.Underlying().(type) {
 			case *types.Struct, *types.Map: // a JSON object
 				ex.assume(And(SeqPrefixOf(StrLit("{"), c.payload), SeqSuffixOf(StrLit("}"), c.payload), Ge(SeqLen(c.payload), IntLit(2))))
+				// nothing to trim from a document that starts with '{' and ends with '}'
+				ex.assume(Eq(trimSpaceTerm(c.payload), c.payload))
 			}
 		}
 		ex.memo["carrier:"+c.tok.String()] = &carrierBox{c}
